@@ -45,7 +45,7 @@ func (q Req) String() string { return q.Method + " " + q.Path }
 // probe, HEAD->GET fallback.
 var Kinds = []Req{
 	{"GET", "/a"}, {"GET", "/b"}, {"GET", "/u/1"}, {"GET", "/u/2"}, {"GET", "/k/y"},
-	{"GET", "/zz/q"}, {"POST", "/a"}, {"HEAD", "/u/1"}, {"POST", "/u/1"}, {"GET", "/g/s"},
+	{"GET", "/zz/q"}, {"POST", "/a"}, {"HEAD", "/u/1"}, {"POST", "/u/1"}, {"GET", "/g/s"}, {"POST", "/k/y"},
 }
 
 // Yield is called by the harness handlers at entry and exit (a scheduling
@@ -112,8 +112,9 @@ func Build(s Shape) *rux.Router {
 	}
 	route("/a", "A", "GET")
 	route("/b", "B", "GET")
-	route("/u/{id}", "U", "GET")
-	route("/{x}/y", "XY", "GET")
+	// two methods each, so that a 405 probe for another method resolves (and caches) the route twice
+	route("/u/{id}", "U", "GET", "DELETE")
+	route("/{x}/y", "XY", "GET", "PUT")
 	if s.GroupMW > 0 {
 		var gm []rux.HandlerFunc
 		for i := 0; i < s.GroupMW; i++ {
